@@ -1,7 +1,7 @@
 (* Props/C02.v -- Clifford rotation by a Pauli generator is conjugation by exp(i*pi/4*G).  Property theorems only.
    U = (1+iG)/sqrt2.  U^dagger P U = P if [G,P]=0 and = i P G if {G,P}=0; in the Pauli group this is stated through the
    conjugation identities  G P G = P  resp.  G P G = -P  (so that (1-iG) P (1+iG) = P + i(PG-GP) + GPG = 2P resp. 2iPG). *)
-From PC Require Import Gen.Kernels Model.Base Model.Pauli Model.CMap Model.Spec Proofs.PauliFacts Proofs.Rotate.
+From PC Require Import Gen.Kernels Model.Base Model.Pauli Model.CMap Model.Spec Proofs.PauliFacts Proofs.Rotate Model.Ket Model.Poly Model.PolySem Proofs.UnitaryFacts Proofs.ProjectorFacts.
 
 Theorem C02_commuting_unchanged : forall gen a, acq (fst gen) (fst a) = 0 -> rotate1 gen a = a.
 Proof. exact rotate_commute. Qed.
@@ -81,3 +81,17 @@ Example C02_example :   (* X rotated by G = Z gives i*X*Z = Y ;  generator -ZZ o
   rotate1_masked ([(false, true); (false, true)], 2) [true; false; true] ([(true, false); (true, true); (false, false)], 1)
   = ([(true, true); (true, true); (false, true)], 3).
 Proof. vm_compute. split; reflexivity. Qed.
+(* THE ROTATION IS CONJUGATION BY exp(i pi/4 G), as a matrix identity in the ket semantics (unnormalised V = 1 + iG, V^dag V = 2): V^dag P V = 2 * rotate(P),
+   for single operators, for whole polynomials termwise, and for sequences of rotations *)
+Theorem C02_rotation_is_conjugation : forall n g a k k', wf n g -> hermP g -> wf n a -> length k = n ->
+  amp (pmulp (rot_op_dag n g) (pmulp [(c1, a)] (rot_op n g))) k k' = cmul c2 (amp [(c1, rotate1 g a)] k k').
+Proof. exact rotate_is_conjugation. Qed.
+Print Assumptions C02_rotation_is_conjugation.
+Theorem C02_rotation_operator_unitary : forall n g k k', wf n g -> hermP g -> length k = n ->
+  amp (pmulp (rot_op_dag n g) (rot_op n g)) k k' = cmul c2 (amp (ident_poly n) k k').
+Proof. exact rot_op_unitary. Qed.
+Print Assumptions C02_rotation_operator_unitary.
+Theorem C02_rotation_sequence_is_conjugation : forall n gens a k k', Forall (fun g => wf n g /\ hermP g) gens -> wf n a -> length k = n ->
+  amp (pmulp (rot_seq_op_dag n gens) (pmulp [(c1, a)] (rot_seq_op n gens))) k k' = cmul (two_pow (length gens)) (amp [(c1, UnitaryFacts.rotate_seq1 gens a)] k k').
+Proof. exact rotate_seq_is_conjugation. Qed.
+Print Assumptions C02_rotation_sequence_is_conjugation.
